@@ -148,6 +148,7 @@ class Check:
         self.rule = ''
         self.extra = {}
         self.exhaustive = False
+        self.own_clauses = ()    # extra clause prefixes gated by THIS check
 
     def log(self, msg):
         if os.environ.get('VERIF_VERBOSE'):
@@ -333,6 +334,8 @@ class Check:
                     raise MachineryError(
                         f'trace {tid} event {idx}: unknown op in {shard}')
                 pids = properties_of(c)
+                if any(c.startswith(p) for p in self.own_clauses):
+                    pids = pids | {self.pid}
                 if self.pid not in pids:
                     other[c] = other.get(c, 0) + 1
                     continue
